@@ -459,6 +459,22 @@ func hostileBody(helper, body string) string {
 	case "stall":
 		return "*stall*"
 	}
+	if extra, ok := map[string]string{"validPlusIdTokenNumber": `"id_token":12345`, "validPlusIdTokenObject": `"id_token":{"a":"b"}`, "validPlusIdTokenArray": `"id_token":["x"]`,
+		"validPlusIdTokenBool": `"id_token":true`, "validPlusRefreshNumber": `"refresh_token":7`, "validPlusExpiresString": `"expires_in":"300"`,
+		"validPlusScopeNumber": `"scope":5`}[body]; ok {
+		doc := hostileBody(helper, "valid")
+		if strings.Contains(doc, strings.SplitN(extra, ":", 2)[0]+":") {
+			// the expected document already has the member: replace its value
+			var m map[string]json.RawMessage
+			if json.Unmarshal([]byte(doc), &m) == nil {
+				kv := strings.SplitN(extra, ":", 2)
+				m[strings.Trim(kv[0], `"`)] = json.RawMessage(kv[1])
+				b, _ := json.Marshal(m)
+				return string(b)
+			}
+		}
+		return "{" + extra + "," + doc[1:]
+	}
 	switch helper {
 	case "client.Discover", "rp.NewRelyingPartyOIDC", "rs.NewResourceServer":
 		return `{"issuer":"` + fakeOP + `","authorization_endpoint":"` + fakeOP + `/authorize","token_endpoint":"` + fakeOP + `/token","jwks_uri":"` + fakeOP + `/keys","introspection_endpoint":"` + fakeOP + `/introspect"}`
